@@ -402,6 +402,16 @@ void ezc3d::c3d::analog(const std::vector<ezc3d::DataNS::Frame> &frames)
     updateParameters();
 }
 
+// Frames created by an insertion past the end of the data set are left empty;
+// the shape of the data set must be taken from the first frame that holds something
+static size_t firstFilledFrame(const ezc3d::DataNS::Data& data)
+{
+    for (size_t f = 0; f < data.nbFrames(); ++f)
+        if (data.frame(f).points().nbPoints() > 0 || data.frame(f).analogs().nbSubframes() > 0)
+            return f;
+    return 0;
+}
+
 void ezc3d::c3d::updateHeader()
 {
     // Parameter is always consider as the right value. If there is a discrepancy between them, change the header
@@ -415,9 +425,10 @@ void ezc3d::c3d::updateHeader()
     }
 
     // Compare the subframe with data when possible, otherwise go with the parameters
-    if (_data != nullptr && data().nbFrames() > 0 && data().frame(0).analogs().nbSubframes() != 0) {
-        if (data().frame(0).analogs().nbSubframes() != static_cast<size_t>(header().nbAnalogByFrame()))
-            _header->nbAnalogByFrame(data().frame(0).analogs().nbSubframes());
+    size_t filled(_data != nullptr ? firstFilledFrame(data()) : 0);
+    if (_data != nullptr && data().nbFrames() > 0 && data().frame(filled).analogs().nbSubframes() != 0) {
+        if (data().frame(filled).analogs().nbSubframes() != static_cast<size_t>(header().nbAnalogByFrame()))
+            _header->nbAnalogByFrame(data().frame(filled).analogs().nbSubframes());
     } else {
         // Should always be greater than 0, but we have to take in account Optotrak lazyness
         if (parameters().group("ANALOG").nbParameters()){
@@ -462,9 +473,10 @@ void ezc3d::c3d::updateParameters(const std::vector<std::string> &newPoints, con
     }
 
     // If points has been added
+    size_t filled(firstFilledFrame(data()));
     size_t nPoints;
     if (data().nbFrames() > 0)
-        nPoints = data().frame(0).points().nbPoints();
+        nPoints = data().frame(filled).points().nbPoints();
     else
         nPoints = parameters().group("POINT").parameter("LABELS").valuesAsString().size() + newPoints.size();
     if (nPoints != static_cast<size_t>(grpPoint.parameter("USED").valuesAsInt()[0])){
@@ -484,7 +496,7 @@ void ezc3d::c3d::updateParameters(const std::vector<std::string> &newPoints, con
                 else
                     name = newPoints[i - parameters().group("POINT").parameter("LABELS").valuesAsString().size()];
             } else {
-                name = data().frame(0).points().point(i).name();
+                name = data().frame(filled).points().point(i).name();
             }
             labels.push_back(name);
             descriptions.push_back("");
@@ -499,8 +511,8 @@ void ezc3d::c3d::updateParameters(const std::vector<std::string> &newPoints, con
     ezc3d::ParametersNS::GroupNS::Group& grpAnalog(_parameters->group_nonConst(parameters().groupIdx("ANALOG")));
     size_t nAnalogs;
     if (data().nbFrames() > 0){
-        if (data().frame(0).analogs().nbSubframes() > 0)
-            nAnalogs = data().frame(0).analogs().subframe(0).nbChannels();
+        if (data().frame(filled).analogs().nbSubframes() > 0)
+            nAnalogs = data().frame(filled).analogs().subframe(0).nbChannels();
         else
             nAnalogs = 0;
     } else
@@ -520,7 +532,7 @@ void ezc3d::c3d::updateParameters(const std::vector<std::string> &newPoints, con
                 else
                     name = newAnalogs[i-parameters().group("ANALOG").parameter("LABELS").valuesAsString().size()];
             } else {
-                name = data().frame(0).analogs().subframe(0).channel(i).name();
+                name = data().frame(filled).analogs().subframe(0).channel(i).name();
             }
             labels.push_back(name);
             descriptions.push_back("");
